@@ -16,8 +16,7 @@
 // R11 (unit-wide): the RwLock guard becomes the `guard` parameter; `self._helper(<guard>, ..)` becomes the free function `_helper(guard, ..)`
 //@ rwall R11 re⟦let (?:mut )?guard = self\.(?:read|write)_guard\(\);⟧ => ⟦⟧
 //@ rwall R11 re⟦&(?:mut )?self\.(?:read|write)_guard\(\)⟧ => ⟦guard⟧
-//@ rwall R11 re⟦\bself\.(_[a-z_]+)\(&(?:mut )?guard\b⟧ => ⟦\1(guard⟧
-//@ rwall R11 re⟦\bself\.(_[a-z_]+)\(guard\b⟧ => ⟦\1(guard⟧
+//@ rwall R11 re⟦\bself\.(_[a-z_]+)\(\s*(?:&mut |&)?guard\b⟧ => ⟦\1(guard⟧
 //@ rwall R11 re⟦\btarget\.is_absolute\(\)⟧ => ⟦target.is_absolute2()⟧
 // R10 (unit-wide): the crate macro unwrap_or_false!(e) is `match e { Ok(v) => v, Err(_) => return false }` (src/core/result.rs:18; ASSUMED[macro-unwrap-or-false]: transcribed, not re-extracted)
 //@ rwall R10 re⟦unwrap_or_false!\(((?:[^()]|\([^()]*\))*)\)⟧ => ⟦match \1 { Ok(v) => v, Err(_) => return false }⟧
@@ -639,6 +638,11 @@ pub fn opt_clone_path(o: &Option<PathBuf>) -> (r: Option<PathBuf>)
     ensures r is Some == o is Some, o is Some ==> same_path(r->Some_0, o->Some_0) { unimplemented!() }
 // ASSUMED[seek-contract]: MemfsFile::seek(End(0)) sets pos to data.len() (proved in unit memfs_file)
 impl MemfsFile {
+    // ASSUMED[len-contract]: MemfsFile::len is the number of bytes from the position to the end (proved in unit memfs_file)
+    #[verifier::external_body]
+    pub fn len(&self) -> (r: u64)
+        ensures r as int == (if self.pos as int <= self.data@.len() { self.data@.len() - self.pos as int } else { 0 })
+    { unimplemented!() }
     #[verifier::external_body]
     pub fn seek_end0(&mut self) -> (r: RvResult<u64>)
         ensures r is Ok, final(self).pos as int == old(self).data@.len(), final(self).data@ == old(self).data@,
@@ -1293,5 +1297,399 @@ pub fn append_line(fs: &Memfs, guard: &mut MemfsGuard, path: &PathBuf, line: &St
             &&& line@.len() == 0 ==> r is Ok && final(guard).st() == s0
             &&& (line@.len() > 0 && a is Some && r is Ok) ==> final(guard).st() == st_append_all(s0, a->Some_0, utf8(line@ + seq!['\n']))     //@ clause append_line.appends_line_plus_newline [C06]
             &&& (line@.len() > 0 && a is None) ==> r is Err
+        }),
+//@ body
+
+// =====================================================================================================================
+// _copy (C09, copy clause): a fold of per-entry steps over the traversal of the source, on link-free trees.
+// The traversal itself (Entries / MemfsEntryIter: order, completeness, loop detection) is NOT verified (C02 is not applicable to
+// this technique); it enters as the uninterpreted sequence `traversal(snapshot, root, follow)` with the two facts in ax_traversal.
+pub struct ItemV { pub path: PathV, pub path_ok: bool, pub link: bool }
+#[verifier::external_body] pub struct VfsEntry { x: u8 }
+impl VfsEntry {
+    pub uninterp spec fn iv(&self) -> ItemV;
+    #[verifier::external_body]
+    pub fn path(&self) -> (r: &PathBuf) ensures r@ == self.iv().path, r.abs_clean() == self.iv().path_ok, self.iv().path_ok ==> r.comps() == abs_comps(r@) { unimplemented!() }
+    #[verifier::external_body]
+    pub fn is_symlink(&self) -> (r: bool) ensures r == self.iv().link { unimplemented!() }
+    #[verifier::external_body]
+    pub fn alt(&self) -> (r: &PathBuf) { unimplemented!() }
+    // further Entry accessors of the snapshot entry: left unspecified (the copy re-reads the live entry for everything but the path)
+    #[verifier::external_body] pub fn mode(&self) -> (r: u32) { unimplemented!() }
+    #[verifier::external_body] pub fn is_dir(&self) -> (r: bool) { unimplemented!() }
+    #[verifier::external_body] pub fn is_file(&self) -> (r: bool) { unimplemented!() }
+}
+pub uninterp spec fn traversal(snap: St, root: PathV, follow: bool) -> Seq<ItemV>;
+pub open spec fn no_links(s: St) -> bool { forall|p: PathV| s.entries.contains_key(p) ==> !(#[trigger] s.entries[p]).link }
+// ASSUMED[traversal]: every yielded entry carries an absolute clean path at or below the traversal root, and is reported as a
+// link only if the snapshot contains a link (Entries / MemfsEntryIter, src/sys/fs/entries.rs + memfs/entry_iter.rs, unverified)
+#[verifier::external_body]
+pub proof fn ax_traversal(snap: St, root: PathV, follow: bool)
+    ensures forall|i: int| 0 <= i < traversal(snap, root, follow).len() ==> {
+                let it = #[trigger] traversal(snap, root, follow)[i];
+                it.path_ok && in_sub(root, it.path) && (it.link ==> !no_links(snap)) }
+{ }
+pub open spec fn in_sub(a: PathV, p: PathV) -> bool { a.len() <= p.len() && p.take(a.len() as int) == a }
+#[verifier::external_body] pub struct EntriesIt { x: u8 }
+impl EntriesIt {
+    pub uninterp spec fn snap(&self) -> St;
+    pub uninterp spec fn root(&self) -> PathV;
+    pub uninterp spec fn flw(&self) -> bool;
+    pub uninterp spec fn idx(&self) -> nat;
+    pub open spec fn items(&self) -> Seq<ItemV> { traversal(self.snap(), self.root(), self.flw()) }
+    #[verifier::external_body]
+    pub fn follow(self, yes: bool) -> (r: EntriesIt) ensures r.snap() == self.snap(), r.root() == self.root(), r.flw() == yes, r.idx() == self.idx() { unimplemented!() }
+    // ASSUMED[traversal]: the iterator yields traversal(..) front to back, or an error, and ends only after the last element
+    #[verifier::external_body]
+    pub fn next(&mut self) -> (r: Option<RvResult<VfsEntry>>)
+        ensures final(self).snap() == old(self).snap(), final(self).root() == old(self).root(), final(self).flw() == old(self).flw(),
+                r is None ==> old(self).idx() == old(self).items().len() && final(self).idx() == old(self).idx(),
+                r is Some ==> old(self).idx() < old(self).items().len() && final(self).idx() == old(self).idx() + 1,
+                (r is Some && r->Some_0 is Ok) ==> r->Some_0->Ok_0.iv() == old(self).items()[old(self).idx() as int],
+    { unimplemented!() }
+}
+// Memfs::_entries: a traversal of a snapshot (clone) of the tree taken at the call, rooted at abs(path)
+#[verifier::external_body]
+pub fn _entries(guard: &MemfsGuard, path: &PathBuf) -> (r: RvResult<EntriesIt>)
+    requires guard.st().cwd_ok
+    ensures r is Ok ==> spec_abs(guard.st().cwd, path.comps()) is Some && r->Ok_0.snap() == guard.st()
+                        && r->Ok_0.root() == spec_abs(guard.st().cwd, path.comps())->Some_0 && !r->Ok_0.flw() && r->Ok_0.idx() == 0
+{ unimplemented!() }
+impl MemfsEntry {
+    // ASSUMED[entry-follow-contract]: MemfsEntry::follow (proved in unit entry_follow): nothing is swapped unless asked to follow a link
+    #[verifier::external_body]
+    pub fn follow(self, follow: bool) -> (r: VfsEntry)
+        ensures !(follow && self.link && !self.follow) ==> r.iv() == (ItemV { path: self.path@, path_ok: self.path.abs_clean(), link: self.link })
+    { unimplemented!() }
+//@ item entry_path file=src/sys/fs/memfs/entry.rs block="impl Entry for MemfsEntry" fn=path props=C01,C09,C12
+    pub fn path(&self) -> (r: &PathBuf) ensures r@ == self.path@, r.abs_clean() == self.path.abs_clean(), r.comps() == self.path.comps()
+//@ body
+}
+impl PathBuf {
+    // relative remainder below a component prefix, and its re-attachment (ASSUMED[trim-prefix-abs], ASSUMED[mash-contract]: unit path_helpers)
+    pub uninterp spec fn rel_names(&self) -> Seq<Name>;
+    pub uninterp spec fn is_rel(&self) -> bool;
+    #[verifier::external_body]
+    pub fn trim_prefix<T: PathArg>(&self, prefix: T) -> (r: PathBuf)
+        ensures (self.abs_clean() && prefix.pok() && in_sub(prefix.pv(), self@)) ==> r.is_rel() && r.rel_names() == self@.skip(prefix.pv().len() as int)
+    { unimplemented!() }
+    #[verifier::external_body]
+    pub fn mash_rel(&self, p: PathBuf) -> (r: PathBuf)
+        ensures (self.abs_clean() && p.is_rel()) ==> r.abs_clean() && r@ == self@ + p.rel_names() && r.comps() == abs_comps(r@)
+    { unimplemented!() }
+    #[verifier::external_body]
+    pub fn eq_abs(&self, o: &PathBuf) -> (b: bool) ensures (self.abs_clean() && o.abs_clean()) ==> b == (self@ == o@) { unimplemented!() }
+}
+//@ struct file=src/sys/fs/copy.rs name=CopyOpts
+//@ endstruct
+pub open spec fn dir_mode_of(o: CopyOpts) -> Option<u32> { match o.mode { Some(x) => if o.cdirs || !o.cfiles { Some(x) } else { None }, None => None } }
+pub open spec fn file_mode_of(o: CopyOpts) -> Option<u32> { match o.mode { Some(x) => if o.cfiles || !o.cdirs { Some(x) } else { None }, None => None } }
+pub open spec fn or_mode(m: Option<u32>, d: u32) -> Option<u32> { match m { Some(x) => Some(x), None => Some(d) } }
+#[verifier::external_body]
+pub fn opt_or(a: Option<u32>, b: Option<u32>) -> (r: Option<u32>) ensures r == (match a { Some(x) => Some(x), None => b }) { unimplemented!() }
+// abs is the identity on absolute clean paths (C05 "abs is idempotent"; not mechanised: stated as a precondition of _copy)
+pub open spec fn abs_stable(cwd: PathV) -> bool { forall|p: PathV| #[trigger] spec_abs(cwd, abs_comps(p)) == Some(p) }
+
+pub struct CopyV { pub a: PathV, pub b: PathV, pub into: bool, pub dmode: Option<u32>, pub fmode: Option<u32> }
+// destination of a source path: relative to the source root (copy onto dst) or to the source root's parent (copy into an existing directory)
+pub open spec fn copy_dst(c: CopyV, p: PathV) -> PathV { if c.into { c.b + p.skip(c.a.len() - 1) } else { c.b + p.skip(c.a.len() as int) } }
+// one step, written from the property statement: a directory is (re)created with the selected or the source mode; a file entry is
+// duplicated under its new path with the selected or the source mode and its content is copied; missing parents are created first
+pub open spec fn copy_step(s: St, c: CopyV, p: PathV) -> St {
+    let e = s.entries[p];
+    let d = copy_dst(c, p);
+    if e.dir { mk_all(s, d, or_mode(c.dmode, e.mode), d.len()) } else if d.len() == 0 { s } else {
+        let dd = d.drop_last();
+        let s1 = if !s.entries.contains_key(dd) { mk_all(s, dd, or_mode(c.dmode, s.entries[p.drop_last()].mode), dd.len()) } else { s };
+        let e2 = EntryV { path: d, path_ok: true, mode: kind_mode(e.link, e.file, e.dir, or_mode(c.fmode, e.mode)), ..e };
+        let s2 = spec_add_st(s1, e2);
+        St { files: s2.files.insert(d, s2.files[p]), ..s2 }
+    }
+}
+pub open spec fn copy_fold(s: St, c: CopyV, items: Seq<ItemV>, k: nat) -> St decreases k {
+    if k == 0 { s } else { copy_step(copy_fold(s, c, items, (k - 1) as nat), c, items[k - 1].path) }
+}
+pub proof fn lemma_mk_all_keeps(s: St, a: PathV, mode: Option<u32>, j: nat)
+    requires no_links(s)
+    ensures no_links(mk_all(s, a, mode, j)), mk_all(s, a, mode, j).cwd == s.cwd, mk_all(s, a, mode, j).cwd_ok == s.cwd_ok
+    decreases j
+{
+    if j > 0 {
+        lemma_mk_all_keeps(s, a, mode, (j - 1) as nat);
+        let s1 = mk_all(s, a, mode, (j - 1) as nat);
+        let e = dir_entry(a.take(j as int), mode);
+        assert forall|p: PathV| spec_add_st(s1, e).entries.contains_key(p) implies !(#[trigger] spec_add_st(s1, e).entries[p]).link by {
+            if s1.entries.contains_key(p) { assert(!s1.entries[p].link); }
+            if s1.entries.contains_key(e.path.drop_last()) { assert(!s1.entries[e.path.drop_last()].link); }
+        }
+    }
+}
+//@ obligation lemma_mk_all_keeps props=C09,C03
+// overwriting the content of an existing regular file keeps the tree well formed
+pub proof fn lemma_put_file_wf(s: St, d: PathV, f: FileV)
+    requires wf(s), s.files.contains_key(d), f.pos == 0
+    ensures wf(St { files: s.files.insert(d, f), ..s })
+{
+    let s2 = St { files: s.files.insert(d, f), ..s };
+    assert forall|q: PathV| s2.entries.contains_key(q) implies #[trigger] entry_ok(s2, q) by { assert(entry_ok(s, q)); }
+    assert forall|q: PathV, n: Name| #[trigger] kids_ok(s2, q, n) by { assert(kids_ok(s, q, n)); }
+    assert forall|q: PathV| #[trigger] file_ok(s2, q) by { assert(file_ok(s, q)); assert(file_ok(s, d)); }
+}
+//@ obligation lemma_put_file_wf props=C09,C03,C06
+
+// every step of the fold succeeded (what `r is Ok` means step by step): the entry existed, directories could be created, the new
+// entry could be added and the source content was there
+pub open spec fn step_ok(s: St, c: CopyV, p: PathV) -> bool {
+    let e = s.entries[p];
+    let d = copy_dst(c, p);
+    &&& s.entries.contains_key(p)
+    &&& e.dir ==> mk_err(s, d, or_mode(c.dmode, e.mode), d.len()) is None
+    &&& !e.dir ==> ({
+            let dd = d.drop_last();
+            let m = or_mode(c.dmode, s.entries[p.drop_last()].mode);
+            let s1 = if !s.entries.contains_key(dd) { mk_all(s, dd, m, dd.len()) } else { s };
+            let e2 = EntryV { path: d, path_ok: true, mode: kind_mode(e.link, e.file, e.dir, or_mode(c.fmode, e.mode)), ..e };
+            &&& d.len() > 0
+            &&& (!s.entries.contains_key(dd) ==> mk_err(s, dd, m, dd.len()) is None)
+            &&& spec_add_err(s1, e2) is None
+            &&& spec_add_st(s1, e2).files.contains_key(p)
+        })
+}
+pub open spec fn copy_ok(s: St, c: CopyV, items: Seq<ItemV>, k: nat) -> bool decreases k {
+    k == 0 || (copy_ok(s, c, items, (k - 1) as nat) && step_ok(copy_fold(s, c, items, (k - 1) as nat), c, items[k - 1].path))
+}
+pub open spec fn ent_of(s: St, k: PathV) -> Option<EntryV> { if s.entries.contains_key(k) { Some(s.entries[k]) } else { None } }
+pub open spec fn file_of(s: St, k: PathV) -> Option<FileV> { if s.files.contains_key(k) { Some(s.files[k]) } else { None } }
+// creating the components of `a` touches only prefixes of `a`, and no file content
+pub proof fn lemma_mk_all_frame(s: St, a: PathV, mode: Option<u32>, j: nat, q: PathV)
+    requires j <= a.len(), !in_sub(q, a)
+    ensures ent_of(mk_all(s, a, mode, j), q) == ent_of(s, q), mk_all(s, a, mode, j).files == s.files
+    decreases j
+{
+    if j > 0 {
+        lemma_mk_all_frame(s, a, mode, (j - 1) as nat, q);
+        let t = a.take(j as int);
+        assert(in_sub(t, a)) by { assert(a.take(t.len() as int) =~= t); }
+        assert(in_sub(t.drop_last(), a)) by { assert(a.take(t.len() - 1) =~= t.drop_last()); }
+    }
+}
+//@ obligation lemma_mk_all_frame props=C09,C01
+// FRAME of one step: only the destination path of the entry and its ancestors can change (nothing else, in particular no other content)
+pub proof fn lemma_copy_step_frame(s: St, c: CopyV, p: PathV, q: PathV)
+    requires !in_sub(q, copy_dst(c, p))
+    ensures ent_of(copy_step(s, c, p), q) == ent_of(s, q), file_of(copy_step(s, c, p), q) == file_of(s, q)     //@ clause copy.step_changes_only_destination_and_ancestors [C09]
+{
+    let e = s.entries[p];
+    let d = copy_dst(c, p);
+    assert(in_sub(d, d)) by { assert(d.take(d.len() as int) =~= d); }
+    if e.dir { lemma_mk_all_frame(s, d, or_mode(c.dmode, e.mode), d.len(), q); } else if d.len() > 0 {
+        let dd = d.drop_last();
+        assert(in_sub(dd, d)) by { assert(d.take(dd.len() as int) =~= dd); }
+        assert(!in_sub(q, dd)) by { if in_sub(q, dd) { assert(d.take(q.len() as int) =~= dd.take(q.len() as int)); } }
+        assert(q != d && q != dd);
+        let m = or_mode(c.dmode, s.entries[p.drop_last()].mode);
+        lemma_mk_all_frame(s, dd, m, dd.len(), q);
+        let s1 = if !s.entries.contains_key(dd) { mk_all(s, dd, m, dd.len()) } else { s };
+        assert(ent_of(s1, q) == ent_of(s, q) && s1.files == s.files);
+        let e2 = EntryV { path: d, path_ok: true, mode: kind_mode(e.link, e.file, e.dir, or_mode(c.fmode, e.mode)), ..e };
+        let s2 = spec_add_st(s1, e2);
+        assert(ent_of(s2, q) == ent_of(s1, q));
+        assert(file_of(s2, q) == file_of(s1, q));
+    }
+}
+//@ obligation lemma_copy_step_frame props=C09,C01
+// PLACEMENT of one step for a non-directory entry: the destination exists with the source's kind; a newly created destination is the
+// source entry under its new path with the selected (or the source's) mode; and the content is the source's content
+pub proof fn lemma_copy_step_places(s: St, c: CopyV, p: PathV)
+    requires step_ok(s, c, p), !s.entries[p].dir
+    ensures ({
+        let e = s.entries[p];
+        let d = copy_dst(c, p);
+        let dd = d.drop_last();
+        let s1 = if !s.entries.contains_key(dd) { mk_all(s, dd, or_mode(c.dmode, s.entries[p.drop_last()].mode), dd.len()) } else { s };
+        let s3 = copy_step(s, c, p);
+        &&& s3.entries.contains_key(d)
+        &&& (e.file ==> s3.entries[d].file)
+        &&& !s1.entries.contains_key(d) ==> s3.entries[d] == (EntryV { path: d, path_ok: true, mode: kind_mode(e.link, e.file, e.dir, or_mode(c.fmode, e.mode)), ..e })     //@ clause copy.new_entry_has_source_kind_and_selected_or_source_mode [C09]
+        &&& p != d ==> s3.files.contains_key(d) && s.files.contains_key(p) && s3.files[d] == s.files[p]                   //@ clause copy.content_is_copied [C09,C06]
+    }),
+{
+    let e = s.entries[p];
+    let d = copy_dst(c, p);
+    let dd = d.drop_last();
+    let m = or_mode(c.dmode, s.entries[p.drop_last()].mode);
+    if !s.entries.contains_key(dd) { lemma_mk_all_frame(s, dd, m, dd.len(), d); assert(!in_sub(d, dd)); }
+}
+//@ obligation lemma_copy_step_places props=C09,C06
+// composition: a path that is not at or above any destination path is untouched by the whole copy -- "nothing outside the destination changes"
+pub proof fn theorem_copy_frame(s: St, c: CopyV, items: Seq<ItemV>, k: nat, q: PathV)
+    requires k <= items.len(), forall|j: int| 0 <= j < k ==> !in_sub(q, copy_dst(c, #[trigger] items[j].path))
+    ensures ent_of(copy_fold(s, c, items, k), q) == ent_of(s, q), file_of(copy_fold(s, c, items, k), q) == file_of(s, q)     //@ clause copy.nothing_outside_the_destination_changes [C09]
+    decreases k
+{
+    if k > 0 {
+        theorem_copy_frame(s, c, items, (k - 1) as nat, q);
+        lemma_copy_step_frame(copy_fold(s, c, items, (k - 1) as nat), c, items[k - 1].path, q);
+    }
+}
+//@ obligation theorem_copy_frame props=C09
+// composition: the content placed for item i survives to the end if no later destination path is at or below ... above it
+pub proof fn theorem_copy_content(s: St, c: CopyV, items: Seq<ItemV>, i: nat, n: nat)
+    requires i < n <= items.len(), copy_ok(s, c, items, n),
+             !copy_fold(s, c, items, i).entries[items[i as int].path].dir,
+             items[i as int].path != copy_dst(c, items[i as int].path),
+             forall|j: int| i < j < n ==> !in_sub(copy_dst(c, items[i as int].path), copy_dst(c, #[trigger] items[j].path)),
+    ensures ({
+        let p = items[i as int].path;
+        let d = copy_dst(c, p);
+        file_of(copy_fold(s, c, items, n), d) == file_of(copy_fold(s, c, items, i), p)          //@ clause copy.copied_content_survives_to_the_end [C09,C06]
+        && copy_fold(s, c, items, i).files.contains_key(p)
+    }),
+    decreases n - i
+{
+    let p = items[i as int].path;
+    let d = copy_dst(c, p);
+    lemma_copy_ok_prefix(s, c, items, (i + 1) as nat, n);
+    if n == i + 1 {
+        lemma_copy_step_places(copy_fold(s, c, items, i), c, p);
+    } else {
+        lemma_copy_ok_prefix(s, c, items, (n - 1) as nat, n);
+        theorem_copy_content(s, c, items, i, (n - 1) as nat);
+        lemma_copy_step_frame(copy_fold(s, c, items, (n - 1) as nat), c, items[n - 1].path, d);
+    }
+}
+pub proof fn lemma_copy_ok_prefix(s: St, c: CopyV, items: Seq<ItemV>, k: nat, n: nat)
+    requires k <= n, copy_ok(s, c, items, n)
+    ensures copy_ok(s, c, items, k)
+    decreases n - k
+{
+    if k < n { lemma_copy_ok_prefix(s, c, items, k, (n - 1) as nat); }
+}
+//@ obligation theorem_copy_content props=C09,C06
+//@ obligation lemma_copy_ok_prefix props=C09
+
+//@ item _copy file=src/sys/fs/memfs/vfs.rs block="impl Memfs" fn=_copy props=C09,C03,C06,C12
+//@ sig fn _copy(&self, guard: &mut MemfsGuard, cp: sys::CopyOpts) -> RvResult<()>
+//@ rw R1 1 ⟦src_root == dst_root⟧ => ⟦src_root.eq_abs(&dst_root)⟧
+//@ rw R1 1 ⟦_clone_entry(guard, src_root)?⟧ => ⟦_clone_entry(guard, &src_root)?⟧
+//@ rw R1 + re⟦dst_root\.mash\(⟧ => ⟦dst_root.mash_rel(⟧
+//@ rw R1 * ⟦_symlink(guard, dst_path, src.alt())?⟧ => ⟦_symlink(guard, &dst_path, src.alt())?⟧
+//@ rw R1 * ⟦_clone_entry(guard, src.path().dir()?)?⟧ => ⟦_clone_entry(guard, &src.path().dir()?)?⟧
+//@ rw R4 + re⟦(\w+)\.or\(⟧ => ⟦opt_or(\1, ⟧
+//@ rw R4 1 ⟦dst.path.clone_from(&dst_path);⟧ => ⟦dst.path = dst_path.clone();⟧
+//@ rw R3 1 for
+//@ ins start
+    let ghost s0 = guard.st();
+//@ endins
+//@ ins after ⟦let copy_into = _is_dir(guard, &dst_root);⟧
+        let ghost a = src_root@;
+        let ghost b = dst_root@;
+        let ghost c = CopyV { a: a, b: b, into: copy_into, dmode: dir_mode, fmode: file_mode };
+        proof { src_root.ax_abs(); dst_root.ax_abs(); }
+//@ endins
+//@ ins before ⟦let src_root = _clone_entry(guard, &src_root)?.follow(cp.follow);⟧
+        proof { assert(spec_abs(s0.cwd, abs_comps(a)) == Some(a)); assert(spec_abs(s0.cwd, abs_comps(b)) == Some(b)); }
+//@ endins
+//@ ins before ⟦{ let mut __it1 =⟧
+        proof { assert(entry_ok(s0, a)); assert(!s0.entries[a].link); assert(src_root.iv().path == a); }
+//@ endins
+//@ loop 1
+            invariant
+                wf(guard.st()), no_links(guard.st()), no_links(s0), abs_stable(s0.cwd), guard.st().cwd == s0.cwd,
+                s0 == old(guard).st(),
+                __it1.snap() == s0, __it1.root() == a, __it1.flw() == cp.follow, __it1.idx() <= __it1.items().len(),
+                src_root.iv() == (ItemV { path: a, path_ok: true, link: false }),
+                dst_root.abs_clean(), dst_root@ == b,
+                c == (CopyV { a: a, b: b, into: copy_into, dmode: dir_mode, fmode: file_mode }),
+                guard.st() == copy_fold(s0, c, __it1.items(), __it1.idx()), copy_ok(s0, c, __it1.items(), __it1.idx()),
+            ensures __it1.idx() == __it1.items().len(),
+            decreases __it1.items().len() - __it1.idx()
+//@ endloop
+//@ ins after ⟦let src = entry?;⟧
+            let ghost k0 = (__it1.idx() - 1) as nat;
+            let ghost p = src.iv().path;
+            let ghost st1 = guard.st();
+            proof {
+                ax_traversal(s0, a, cp.follow);
+                assert(src.iv() == __it1.items()[k0 as int]);
+                assert(a.take(a.len() as int) =~= a);
+                if a.len() > 0 { assert(p.take(a.len() - 1) =~= p.take(a.len() as int).take(a.len() - 1)); assert(a.take(a.len() - 1) =~= a.drop_last()); }
+            }
+//@ endins
+//@ ins after ⟦dst_root.mash_rel(src.path().trim_prefix(src_root.path())) };⟧
+            let ghost d = dst_path@;
+            proof {
+                assert(d == copy_dst(c, p));
+                assert(!src.iv().link);
+                assert(spec_abs(st1.cwd, abs_comps(p)) == Some(p));
+                assert(copy_fold(s0, c, __it1.items(), (k0 + 1) as nat) == copy_step(st1, c, p));
+            }
+//@ endins
+//@ ins after ⟦let src = _clone_entry(guard, src.path())?;⟧
+                let ghost e = src.ev();
+                proof { assert(entry_ok(st1, p)); assert(e == st1.entries[p]); assert(!e.link); src.path.ax_abs(); }
+//@ endins
+//@ ins after re⟦_mkdir_m\(guard, &dst_path, [^;]*\)\?;⟧
+                    proof { lemma_mk_all_keeps(st1, d, or_mode(c.dmode, e.mode), d.len()); }
+//@ endins
+//@ ins before ⟦if !guard.contains_entry(&dst_path.dir()?) {⟧
+                    let ghost dd = d.drop_last();
+                    proof { if p.len() > 0 { assert(spec_abs(st1.cwd, abs_comps(p.drop_last())) == Some(p.drop_last())); } }
+//@ endins
+//@ ins before ⟦let mut dst = src.clone();⟧
+                    let ghost s1 = guard.st();
+                    proof {
+                        let m = or_mode(c.dmode, st1.entries[p.drop_last()].mode);
+                        if !st1.entries.contains_key(dd) { lemma_mk_all_keeps(st1, dd, m, dd.len()); assert(s1 == mk_all(st1, dd, m, dd.len())); } else { assert(s1 == st1); }
+                        assert(no_links(s1) && s1.cwd == s0.cwd);
+                    }
+//@ endins
+//@ ins before ⟦_add(guard, dst)?;⟧
+                    let ghost e2 = dst.ev();
+                    proof {
+                        assert(e2 == (EntryV { path: d, path_ok: true, mode: kind_mode(e.link, e.file, e.dir, or_mode(c.fmode, e.mode)), ..e }));
+                        assert(fresh_entry(e2));
+                        assert(!parent_is_link(s1, d)) by { if s1.entries.contains_key(d.drop_last()) { assert(!s1.entries[d.drop_last()].link); } }
+                    }
+//@ endins
+//@ ins after ⟦_add(guard, dst)?;⟧
+                    let ghost s2 = guard.st();
+                    proof {
+                        assert(s2 == spec_add_st(s1, e2));
+                        assert(wf(s2));
+                        assert forall|q: PathV| s2.entries.contains_key(q) implies !(#[trigger] s2.entries[q]).link by {
+                            if s1.entries.contains_key(q) { assert(!s1.entries[q].link); }
+                            if s1.entries.contains_key(d.drop_last()) { assert(!s1.entries[d.drop_last()].link); }
+                        }
+                        assert(spec_abs(s2.cwd, abs_comps(p)) == Some(p));
+                    }
+//@ endins
+//@ ins loopend 1
+            proof { assert(step_ok(st1, c, p)); }
+//@ endins
+//@ ins after ⟦guard.insert_file(dst_path, dst_file);⟧
+                        proof {
+                            assert(file_ok(s2, p)); assert(file_ok(s2, d));
+                            assert(s2.entries.contains_key(d) && s2.entries[d].file && !s2.entries[d].link);
+                            lemma_put_file_wf(s2, d, s2.files[p]);
+                        }
+//@ endins
+pub fn _copy(guard: &mut MemfsGuard, cp: CopyOpts) -> (r: RvResult<()>)
+    requires wf(old(guard).st()), no_links(old(guard).st()), abs_stable(old(guard).st().cwd),
+    ensures
+        wf(final(guard).st()),                                                                                   //@ clause copy.wf_preserved [C03]
+        r is Ok ==> ({
+            let s0 = old(guard).st();
+            let a = spec_abs(s0.cwd, cp.src.comps());
+            let b = spec_abs(s0.cwd, cp.dst.comps());
+            &&& a is Some && b is Some
+            &&& a->Some_0 == b->Some_0 ==> final(guard).st() == s0                                                  //@ clause copy.onto_itself_is_a_noop [C09]
+            &&& a->Some_0 != b->Some_0 ==> ({
+                    let c = CopyV { a: a->Some_0, b: b->Some_0, into: s0.entries.contains_key(b->Some_0) && s0.entries[b->Some_0].dir,
+                                    dmode: dir_mode_of(cp), fmode: file_mode_of(cp) };
+                    let items = traversal(s0, a->Some_0, cp.follow);
+                    final(guard).st() == copy_fold(s0, c, items, items.len())                                       //@ clause copy.is_the_fold_of_per_entry_steps [C09,C06]
+                    && copy_ok(s0, c, items, items.len())
+                })
         }),
 //@ body
